@@ -14,7 +14,7 @@ SPEC = os.path.join(VERIF, "spec")
 WORK = os.path.join(VERIF, "work")
 HARNESS = os.path.join(VERIF, "harness")
 EVIDENCE = os.path.join(VERIF, "evidence")
-REPO = "/repo"
+REPO = os.environ.get("VERIF_REPO", "/repo")   # VERIF_REPO: only tools/seed_screen.py (a private copy of /verif bound to a scratch worktree)
 NCPU = os.cpu_count() or 4
 
 
